@@ -150,6 +150,74 @@ Definition conform_case (l : list Z) : list Z :=
       end
   end.
 
+(* ---- the no-deadlock clause (rule 13) -------------------------------------------
+   Judged at a quiescent point (a label written by the harness after every other
+   goroutine is blocked) on the labels seen so far.  A call that has started and
+   not returned must be LEGITIMATELY blocked: directly or transitively waiting for
+   an Emit that is stalled on a subscription whose consumer is not receiving
+   and whose Close has not started ("blocks when a subscriber is slow").  What
+   may wait for what is the characterisation behind c15_no_deadlock:
+     Emit of type T        a subscription of T (typed with T, or wildcard) may stall it
+     Emitter() of type T   only the node lock of T: a stalled Emit/replay on a typed subscription of T
+     Subscribe / Close     typed: the node locks of its types, held by an Emit stalled on ANOTHER
+                           typed subscription sharing a type; wildcard: the wildcard lock, held by
+                           Emits stalled on ANOTHER wildcard subscription
+     Emitter.Close         never blocks (tryDropNode never waits)
+   In particular a call on an unrelated type, or any call while every stalled
+   subscription has a receive pending or is being closed, must not be blocked. *)
+Record ocfg := mkOcfg { o_em : list nat;                  (* type of each emitter *)
+                        o_sub : list (option (list nat));  (* types of each subscription, None = wildcard *)
+                        o_emit : list nat }.               (* emitter of each Emit call *)
+
+Definition lab_is_start (t : thr) (l : label) : bool := match l with LStart t' => thr_eqb t t' | _ => false end.
+Definition lab_is_ret (t : thr) (l : label) : bool := match l with LRet t' _ => thr_eqb t t' | _ => false end.
+Definition o_started (tr : list label) (t : thr) : bool := existsb (lab_is_start t) tr.
+Definition o_returned (tr : list label) (t : thr) : bool := existsb (lab_is_ret t) tr.
+Definition o_nreq (tr : list label) (s : nat) : nat :=
+  length (filter (fun l => match l with LReq s' => Nat.eqb s s' | _ => false end) tr).
+Definition o_nread (tr : list label) (s : nat) : nat :=
+  length (filter (fun l => match l with LRead s' _ => Nat.eqb s s' | _ => false end) tr).
+
+(* s may be stalling senders: subscribed (at least begun), not being closed, consumer not receiving *)
+Definition o_root (tr : list label) (s : nat) : bool :=
+  o_started tr (TSub s) && negb (o_started tr (TClose s)) && Nat.leb (o_nreq tr s) (o_nread tr s).
+
+Definition o_typed_with (o : ocfg) (s ty : nat) : bool :=
+  match nth_error (o_sub o) s with Some (Some tys) => existsb (Nat.eqb ty) tys | _ => false end.
+Definition o_wild (o : ocfg) (s : nat) : bool :=
+  match nth_error (o_sub o) s with Some None => true | _ => false end.
+Definition o_emitter_ty (o : ocfg) (j : nat) : option nat := nth_error (o_em o) j.
+Definition o_emit_ty (o : ocfg) (k : nat) : option nat :=
+  match nth_error (o_emit o) k with Some j => o_emitter_ty o j | None => None end.
+
+Definition o_subs (o : ocfg) : list nat := seq 0 (length (o_sub o)).
+
+Definition o_legit (o : ocfg) (tr : list label) (t : thr) : bool :=
+  match t with
+  | TEmit k => match o_emit_ty o k with
+               | Some ty => existsb (fun s => o_root tr s && (o_typed_with o s ty || o_wild o s)) (o_subs o)
+               | None => false end
+  | TEmNew j => match o_emitter_ty o j with
+                | Some ty => existsb (fun s => o_root tr s && o_typed_with o s ty) (o_subs o)
+                | None => false end
+  | TEmClose _ => false
+  | TSub s0 | TClose s0 =>
+      match nth_error (o_sub o) s0 with
+      | Some (Some tys) => existsb (fun s => negb (Nat.eqb s s0) && o_root tr s && existsb (o_typed_with o s) tys) (o_subs o)
+      | Some None => existsb (fun s => negb (Nat.eqb s s0) && o_root tr s && o_wild o s) (o_subs o)
+      | None => false end
+  | _ => true
+  end.
+
+Definition o_ops (o : ocfg) : list thr :=
+  flat_map (fun j => [TEmNew j; TEmClose j]) (seq 0 (length (o_em o)))
+  ++ map TEmit (seq 0 (length (o_emit o)))
+  ++ flat_map (fun s => [TSub s; TClose s]) (o_subs o).
+
+(* the first operation that is blocked without a legitimate reason, if any *)
+Definition blocked_badly (o : ocfg) (tr : list label) : option thr :=
+  find (fun t => o_started tr t && negb (o_returned tr t) && negb (o_legit o tr t)) (o_ops o).
+
 (* ---- the property monitor ------------------------------------------------------ *)
 (* Positions are indices into the label list.  [before a b] = both known and a < b. *)
 Fixpoint find_pos (f : wl -> bool) (ls : list wl) (i : nat) : option nat :=
@@ -177,6 +245,17 @@ Fixpoint reqs_of (ls : list wl) (s : Z) (i : nat) : list nat :=
   match ls with
   | [] => []
   | (k, a, _, _) :: r => if (k =? 2) && (a =? s) then i :: reqs_of r s (S i) else reqs_of r s (S i)
+  end.
+
+Definition ocfg_of_cfg (c : cfg) : ocfg :=
+  mkOcfg (map (fun p => Z.to_nat (fst p)) (c_emitters c))
+         (map (fun s => let '(w, _, tys) := s in if w =? 1 then None else Some (map Z.to_nat tys)) (c_subs c))
+         (map (fun p => Z.to_nat (fst p)) (c_emits c)).
+
+Definition thr_code (t : thr) : Z * Z :=
+  match t with
+  | TEmNew j => (0, Z.of_nat j) | TEmClose j => (1, Z.of_nat j) | TEmit k => (2, Z.of_nat k)
+  | TSub s => (3, Z.of_nat s) | TClose s => (4, Z.of_nat s) | _ => (9, 0)
   end.
 
 Section MON.
@@ -288,11 +367,16 @@ Section MON.
           else if (k =? 0) || (k =? 2) || (k =? 5) then
             let '(d, s) := first_nz (fun s => check_quiet s p) subsq in
             if negb (d =? 0) then [ERR_PROPERTY; d; Z.of_nat p; Z.of_nat s]
-            else if (k =? 5) &&
+            else match (match labels_of (firstn p ls) with
+                        | Some tr => blocked_badly (ocfg_of_cfg c) tr | None => None end) with
+                 | Some t => [ERR_PROPERTY; 13; Z.of_nat p; fst (thr_code t); snd (thr_code t)]   (* a call is blocked without a stalled subscriber to blame *)
+                 | None =>
+            if (k =? 5) &&
                     existsb (fun x : wl => let '(k', a', b', _) := x in
                                (k' =? 0) && negb (existsb (is_lab 1 a' b') ls)) ls
                  then [ERR_PROPERTY; 12; Z.of_nat p]          (* an operation never returned: deadlock *)
             else []
+                 end
           else [] in
         match res with [] => mon_go r (S p) | _ => res end
     end.
